@@ -1,9 +1,12 @@
 import OpdaModel.NoisyFloat
 import OpdaProofs.NoisyLogic
 import OpdaProofs.NoisyReal
+import OpdaProofs.NoisySmooth
 import Mathlib.MeasureTheory.Integral.IntervalIntegral.IntegrationByParts
 import Mathlib.MeasureTheory.Integral.IntervalIntegral.FundThmCalculus
 import Mathlib.Analysis.SpecialFunctions.Pow.Deriv
+import Mathlib.Analysis.SpecialFunctions.Integrals.Basic
+import Mathlib.Analysis.SpecialFunctions.Integrability.Basic
 import Mathlib.Probability.Distributions.Gaussian.Real
 import Mathlib.Tactic
 
@@ -44,11 +47,14 @@ theorem phiStd_neg (x : ℝ) : phiStd (-x) = phiStd x := by
 /-- the mixture form of the law of `X + s·N` at `t` -/
 noncomputable def mixture (p s t : ℝ) : ℝ := ∫ x in (0:ℝ)..1, Phi ((t - x) / s) * (p * x ^ (p - 1))
 
-/-- **C06-T2 `conv_identity`** (`p = c/2 ≥ 1`) -/
-theorem conv_identity (p s t : ℝ) (hp : 1 ≤ p) (hs : 0 < s) :
+/-- **C06-T2 `conv_identity`** for every `p = c/2 > 0` (so also `c = 1`, where the density `½ x^{−½}` of the
+noise-free law is singular at `0`) -/
+theorem conv_identity (p s t : ℝ) (hp : 0 < p) (hs : 0 < s) :
     mixture p s t = Phi ((t - 1) / s) + ∫ x in (0:ℝ)..1, x ^ p * dens t s x := by
   unfold mixture
-  have hu : ∀ x ∈ uIcc (0:ℝ) 1, HasDerivAt (fun x => Phi ((t - x) / s)) (-dens t s x) x := by
+  have hcP : Continuous fun x : ℝ => Phi ((t - x) / s) := by
+    have := continuous_Phi; fun_prop
+  have hu : ∀ x ∈ Ioo (min (0:ℝ) 1) (max 0 1), HasDerivAt (fun x => Phi ((t - x) / s)) (-dens t s x) x := by
     intro x _
     have h1 : HasDerivAt (fun x : ℝ => (t - x) / s) (-1 / s) x := by
       have := ((hasDerivAt_id x).const_sub t).div_const s
@@ -58,42 +64,48 @@ theorem conv_identity (p s t : ℝ) (hp : 1 ≤ p) (hs : 0 < s) :
     unfold dens
     have : (x - t) / s = -((t - x) / s) := by field_simp; ring
     rw [this, phiStd_neg]; field_simp
-  have hv : ∀ x ∈ uIcc (0:ℝ) 1, HasDerivAt (fun x : ℝ => x ^ p) (p * x ^ (p - 1)) x :=
-    fun x _ => Real.hasDerivAt_rpow_const (Or.inr hp)
+  have hv : ∀ x ∈ Ioo (min (0:ℝ) 1) (max 0 1), HasDerivAt (fun x : ℝ => x ^ p) (p * x ^ (p - 1)) x := by
+    intro x hx
+    have hx0 : 0 < x := by
+      have := hx.1; simpa using this
+    exact Real.hasDerivAt_rpow_const (Or.inl hx0.ne')
   have hu' : IntervalIntegrable (fun x => -dens t s x) volume 0 1 :=
     (continuous_dens t s).neg.intervalIntegrable _ _
   have hv' : IntervalIntegrable (fun x : ℝ => p * x ^ (p - 1)) volume 0 1 :=
-    (continuous_const.mul (Real.continuous_rpow_const (by linarith))).intervalIntegrable _ _
-  have := intervalIntegral.integral_mul_deriv_eq_deriv_mul hu hv hu' hv'
+    (intervalIntegral.intervalIntegrable_rpow' (by linarith)).const_mul p
+  have := intervalIntegral.integral_mul_deriv_eq_deriv_mul_of_hasDerivAt
+    (u := fun x => Phi ((t - x) / s)) (v := fun x : ℝ => x ^ p)
+    hcP.continuousOn (Real.continuous_rpow_const hp.le).continuousOn hu hv hu' hv'
   rw [this]
-  have h0 : (0:ℝ) ^ p = 0 := Real.zero_rpow (by linarith)
+  have h0 : (0:ℝ) ^ p = 0 := Real.zero_rpow hp.ne'
   simp only [Real.one_rpow, mul_one, h0, mul_zero, sub_zero, neg_mul]
   rw [intervalIntegral.integral_neg, sub_neg_eq_add]
   congr 1
   exact intervalIntegral.integral_congr (fun x _ => mul_comm _ _)
 
 /-- the mixture is a probability: `0 ≤ H ≤ 1` -/
-theorem mixture_mem (p s t : ℝ) (hp : 1 ≤ p) : 0 ≤ mixture p s t ∧ mixture p s t ≤ 1 := by
+theorem mixture_mem (p s t : ℝ) (hp : 0 < p) : 0 ≤ mixture p s t ∧ mixture p s t ≤ 1 := by
   unfold mixture
-  have hc : Continuous fun x : ℝ => p * x ^ (p - 1) :=
-    continuous_const.mul (Real.continuous_rpow_const (by linarith))
   have hcP : Continuous fun x : ℝ => Phi ((t - x) / s) := by
     have := continuous_Phi; fun_prop
   have hw : ∀ x ∈ Icc (0:ℝ) 1, 0 ≤ p * x ^ (p - 1) := fun x hx =>
-    mul_nonneg (by linarith) (Real.rpow_nonneg hx.1 _)
+    mul_nonneg hp.le (Real.rpow_nonneg hx.1 _)
+  have hv' : IntervalIntegrable (fun x : ℝ => p * x ^ (p - 1)) volume 0 1 :=
+    (intervalIntegral.intervalIntegrable_rpow' (by linarith)).const_mul p
   have htot : ∫ x in (0:ℝ)..1, p * x ^ (p - 1) = 1 := by
-    have hd : ∀ x ∈ uIcc (0:ℝ) 1, HasDerivAt (fun x : ℝ => x ^ p) (p * x ^ (p - 1)) x :=
-      fun x _ => Real.hasDerivAt_rpow_const (Or.inr hp)
-    rw [intervalIntegral.integral_eq_sub_of_hasDerivAt hd (hc.intervalIntegrable _ _)]
-    simp [Real.zero_rpow (by linarith : p ≠ 0)]
+    rw [intervalIntegral.integral_const_mul, integral_rpow (Or.inl (by linarith))]
+    have : p - 1 + 1 = p := by ring
+    rw [this, Real.one_rpow, Real.zero_rpow hp.ne']
+    field_simp
+    ring
+  have hint : IntervalIntegrable (fun x : ℝ => Phi ((t - x) / s) * (p * x ^ (p - 1))) volume 0 1 :=
+    hv'.continuousOn_mul hcP.continuousOn
   constructor
   · apply intervalIntegral.integral_nonneg zero_le_one
     intro x hx
     exact mul_nonneg (Phi_nonneg _) (hw x hx)
   · refine le_trans ?_ htot.le
-    have hint : IntervalIntegrable (fun x : ℝ => Phi ((t - x) / s) * (p * x ^ (p - 1))) volume 0 1 :=
-      (hcP.mul hc).intervalIntegrable _ _
-    apply intervalIntegral.integral_mono_on zero_le_one hint (hc.intervalIntegrable _ _)
+    apply intervalIntegral.integral_mono_on zero_le_one hint hv'
     intro x hx
     have := Phi_le_one ((t - x) / s)
     nlinarith [hw x hx]
@@ -114,20 +126,20 @@ theorem cdf_even_convex_eq_mixture (d : Params ℝ) (k : ℕ) (hk : 1 ≤ k) (hc
   have hloc : locOf d y = (y - d.a) / (d.b - d.a) := by unfold locOf; simp [hcv]
   have hpt : (y - d.b) / d.o = ((y - d.a) / (d.b - d.a) - 1) / (d.o / (d.b - d.a)) := by
     field_simp; ring
-  have hm := conv_identity k (d.o / (d.b - d.a)) ((y - d.a) / (d.b - d.a)) hk' hs
+  have hm := conv_identity k (d.o / (d.b - d.a)) ((y - d.a) / (d.b - d.a)) (by linarith) hs
   have hg : gmom ((y - d.a) / (d.b - d.a)) (d.o / (d.b - d.a)) 0 1 k
       = ∫ x in (0:ℝ)..1, x ^ (k:ℝ) * dens ((y - d.a) / (d.b - d.a)) (d.o / (d.b - d.a)) x := by
     unfold gmom
     exact intervalIntegral.integral_congr (fun x _ => by simp only [Real.rpow_natCast])
   rw [hloc, hpt, hg, ← hm]
-  obtain ⟨m0, m1⟩ := mixture_mem k (d.o / (d.b - d.a)) ((y - d.a) / (d.b - d.a)) hk'
+  obtain ⟨m0, m1⟩ := mixture_mem k (d.o / (d.b - d.a)) ((y - d.a) / (d.b - d.a)) (by linarith)
   exact clip_of_mem _ 0 1 m0 m1
 
 
 /-- symmetry of the standard normal: `Φ(−z) = 1 − Φ(z)` -/
 theorem Phi_neg (z : ℝ) : Phi (-z) = 1 - Phi z := by
   have h1 : (1 : ℝ≥0) ≠ 0 := one_ne_zero
-  haveI := nullSingletonClass_gaussianReal (μ := 0) h1
+  have := nullSingletonClass_gaussianReal (μ := 0) h1
   have hm : (gaussianReal 0 1).map (fun x => -x) = gaussianReal 0 1 := by
     have := gaussianReal_map_neg (μ := 0) (v := 1)
     simpa using this
@@ -157,7 +169,7 @@ theorem cdf_even_concave_eq_mixture (d : Params ℝ) (k : ℕ) (hk : 1 ≤ k) (h
   have hloc : locOf d y = (d.b - y) / (d.b - d.a) := by unfold locOf; simp [hcv]
   have hpt : (y - d.a) / d.o = -(((d.b - y) / (d.b - d.a) - 1) / (d.o / (d.b - d.a))) := by
     field_simp; ring
-  have hm := conv_identity k (d.o / (d.b - d.a)) ((d.b - y) / (d.b - d.a)) hk' hs
+  have hm := conv_identity k (d.o / (d.b - d.a)) ((d.b - y) / (d.b - d.a)) (by linarith) hs
   have hg : gmom ((d.b - y) / (d.b - d.a)) (d.o / (d.b - d.a)) 0 1 k
       = ∫ x in (0:ℝ)..1, x ^ (k:ℝ) * dens ((d.b - y) / (d.b - d.a)) (d.o / (d.b - d.a)) x := by
     unfold gmom
@@ -167,7 +179,51 @@ theorem cdf_even_concave_eq_mixture (d : Params ℝ) (k : ℕ) (hk : 1 ≤ k) (h
         - ∫ x in (0:ℝ)..1, x ^ (k:ℝ) * dens ((d.b - y) / (d.b - d.a)) (d.o / (d.b - d.a)) x
       = 1 - mixture k (d.o / (d.b - d.a)) ((d.b - y) / (d.b - d.a)) := by rw [hm]; ring
   rw [e]
-  obtain ⟨m0, m1⟩ := mixture_mem k (d.o / (d.b - d.a)) ((d.b - y) / (d.b - d.a)) hk'
+  obtain ⟨m0, m1⟩ := mixture_mem k (d.o / (d.b - d.a)) ((d.b - y) / (d.b - d.a)) (by linarith)
   exact clip_of_mem _ 0 1 (by linarith) (by linarith)
+
+
+/-- **odd `c` (including `c = 1`), convex shape, series regime**: if the selected pieces tile `[0, 1]` and each polynomial is
+within `ε` of `x^{c/2}` on its piece (C19 certifies `ε ≤ 1.02·max_error` for the shipped table), the model's
+cdf over `ℝ` is within `ε` of the Spec `H(loc)`.  (This is the *provable* uniform bound; the implementation's
+real accuracy, 2.5e-5, is better than `ε` for some entries and is a numerical fact.) -/
+theorem cdf_odd_convex_error (d : Params ℝ) (k : ℕ) (hc : d.c = 2 * k + 1) (hcv : d.convex = true)
+    (hab : d.a ≤ d.b) (hp : pointMass (realFns T ninf pinf) d = false)
+    (h : regime (realFns T ninf pinf) d = .nothing) (y ε : ℝ) (hε0 : 0 ≤ ε)
+    (hchain : ChainFrom 0
+      (((approxCoeffs (realFns T ninf pinf) (locOf d y) (d.o / (d.b - d.a)) ((2 * k + 1 : ℕ) : ℤ)).1.zip
+        (approxCoeffs (realFns T ninf pinf) (locOf d y) (d.o / (d.b - d.a)) ((2 * k + 1 : ℕ) : ℤ)).1.tail).zip
+        (approxCoeffs (realFns T ninf pinf) (locOf d y) (d.o / (d.b - d.a)) ((2 * k + 1 : ℕ) : ℤ)).2) 1)
+    (hε : ∀ pc ∈ (((approxCoeffs (realFns T ninf pinf) (locOf d y) (d.o / (d.b - d.a)) ((2 * k + 1 : ℕ) : ℤ)).1.zip
+        (approxCoeffs (realFns T ninf pinf) (locOf d y) (d.o / (d.b - d.a)) ((2 * k + 1 : ℕ) : ℤ)).1.tail).zip
+        (approxCoeffs (realFns T ninf pinf) (locOf d y) (d.o / (d.b - d.a)) ((2 * k + 1 : ℕ) : ℤ)).2),
+      ∀ x ∈ Set.Icc pc.1.1 pc.1.2, |x ^ (((2 * k + 1 : ℕ) : ℝ) / 2) - polyEval pc.2 0 x| ≤ ε) :
+    |cdf (realFns T ninf pinf) d y
+        - mixture (((2 * k + 1 : ℕ) : ℝ) / 2) (d.o / (d.b - d.a)) ((y - d.a) / (d.b - d.a))| ≤ ε := by
+  obtain ⟨ho, hw⟩ := nothing_pos (realFns_lawful T ninf pinf) d hab h
+  have hs : 0 < d.o / (d.b - d.a) := div_pos ho hw
+  have hp1 : (0:ℝ) < ((2 * k + 1 : ℕ) : ℝ) / 2 := by positivity
+  have hloc : locOf d y = (y - d.a) / (d.b - d.a) := by unfold locOf; simp [hcv]
+  have hpt : (y - d.b) / d.o = ((y - d.a) / (d.b - d.a) - 1) / (d.o / (d.b - d.a)) := by
+    field_simp; ring
+  have hm := conv_identity (((2 * k + 1 : ℕ) : ℝ) / 2) (d.o / (d.b - d.a)) ((y - d.a) / (d.b - d.a)) hp1 hs
+  obtain ⟨m0, m1⟩ := mixture_mem (((2 * k + 1 : ℕ) : ℝ) / 2) (d.o / (d.b - d.a)) ((y - d.a) / (d.b - d.a)) hp1
+  have hcont : Continuous fun x : ℝ => x ^ (((2 * k + 1 : ℕ) : ℝ) / 2) := Real.continuous_rpow_const hp1.le
+  have herr := chain_error_le (locOf d y) (d.o / (d.b - d.a)) ε hs hε0 _ hcont 0 1 _ hchain hε
+  rw [cdf_nothing d y hp h]
+  unfold cdfRaw
+  simp only [hcv, if_true]
+  rw [hc, partialMoment_odd T ninf pinf _ _ hs k]
+  show |clip _ ((0:ℕ):ℝ) ((1:ℕ):ℝ) - _| ≤ ε
+  simp only [Nat.cast_zero, Nat.cast_one]
+  have hclipm := clip_of_mem _ 0 1 m0 m1
+  rw [← hclipm]
+  refine (clip_lipschitz _ _ 0 1 zero_le_one).trans ?_
+  show |Phi ((y - d.b) / d.o) + _ - _| ≤ ε
+  rw [hm, hpt, hloc] at *
+  rw [abs_sub_comm] at herr
+  have e : ∀ A B C : ℝ, A + B - (A + C) = B - C := by intros; ring
+  rw [e]
+  exact herr
 
 end Opda.Noisy
